@@ -46,6 +46,9 @@ PROPS = {
              "cases_quick": 1600, "cases_thorough": 80000, "trigger_any": bits("HIT_RECYCLED"), "typesets": 7},
             {"mode": "model", "kinds": BULKK, "profiles": ["bulk"], "salt": "b",
              "cases_quick": 120, "cases_thorough": 12000, "trigger_any": bits("HIT_RECYCLED", "EVICT", "EXPIRE"), "typesets": 7},
+            # thorough only: long histories on one instance (every slot recycled hundreds of times)
+            {"mode": "model", "kinds": KINDS, "profiles": ["recycle", "churn", "shape"], "salt": "long", "thorough_only": True, "nops": (800, 2500),
+             "cases_quick": 0, "cases_thorough": 1500, "trigger_any": bits("HIT_RECYCLED"), "typesets": 7},
         ],
     },
     "C02": {
@@ -60,6 +63,9 @@ PROPS = {
              "cases_quick": 1600, "cases_thorough": 80000, "trigger_any": bits("EVICT", "ERASE_OK", "REAP", "CLEAR_NONEMPTY", "OVERWRITE_EXP"), "typesets": 7},
             {"mode": "model", "kinds": BULKK, "profiles": ["bulk"], "salt": "b",
              "cases_quick": 120, "cases_thorough": 12000, "trigger_any": bits("EVICT", "ERASE_OK", "REAP"), "typesets": 7},
+            # thorough only: long histories on one instance (every slot recycled hundreds of times)
+            {"mode": "model", "kinds": KINDS, "profiles": ["recycle", "churn", "shape"], "salt": "long", "thorough_only": True, "nops": (800, 2500),
+             "cases_quick": 0, "cases_thorough": 1500, "trigger_any": bits("EVICT", "ERASE_OK"), "typesets": 7},
         ],
     },
     "C03": {
@@ -74,6 +80,9 @@ PROPS = {
              "cases_quick": 1600, "cases_thorough": 80000, "trigger_any": bits("EVICT_AFTER_GAP", "EVICT_CHAIN3"), "typesets": 7},
             {"mode": "model", "kinds": KINDS, "profiles": ["ranges"], "salt": "r",
              "cases_quick": 100, "cases_thorough": 16000, "trigger_any": bits("EVICT_AFTER_GAP", "EVICT_CHAIN3", "RANGE_OVERCAP"), "typesets": 7},
+            # thorough only: long histories on one instance (every slot recycled hundreds of times)
+            {"mode": "model", "kinds": KINDS, "profiles": ["recycle", "churn", "shape"], "salt": "long", "thorough_only": True, "nops": (800, 2500),
+             "cases_quick": 0, "cases_thorough": 1500, "trigger_any": bits("EVICT_AFTER_GAP", "EVICT_CHAIN3"), "typesets": 7, "noinsr": True},
         ],
     },
     "C04": {
@@ -130,6 +139,9 @@ PROPS = {
             # uses made through the range forms (insert_range updates, range lookups) count like their single forms
             {"mode": "model", "kinds": ["lru", "tlru", "utlru"], "profiles": ["ranges", "ranges", "shape"], "salt": "r",
              "cases_quick": 2400, "cases_thorough": 120000, "trigger_any": bits("EVICT_NONTRIV", "EVICT_VICTIM_UPD"), "typesets": 7},
+            # thorough only: long histories on one instance (every slot recycled hundreds of times)
+            {"mode": "model", "kinds": ["lru", "tlru", "utlru"], "profiles": ["recycle", "churn", "shape"], "salt": "long", "thorough_only": True, "nops": (800, 2500),
+             "cases_quick": 0, "cases_thorough": 1500, "trigger_any": bits("EVICT_NONTRIV"), "typesets": 7, "noinsr": True},
         ],
     },
     "C11": {
@@ -143,6 +155,9 @@ PROPS = {
              "cases_quick": 6000, "cases_thorough": 240000, "trigger_any": bits("LFU_MULTI"), "typesets": 7},
             {"mode": "model", "kinds": ["lfu", "lfuda"], "profiles": ["ranges"], "salt": "r",
              "cases_quick": 1200, "cases_thorough": 40000, "trigger_any": bits("LFU_MULTI", "CNT3"), "typesets": 7},
+            # thorough only: long histories on one instance (every slot recycled hundreds of times)
+            {"mode": "model", "kinds": ["lfu", "lfuda"], "profiles": ["recycle", "churn", "shape"], "salt": "long", "thorough_only": True, "nops": (800, 2500),
+             "cases_quick": 0, "cases_thorough": 1500, "trigger_any": bits("LFU_MULTI"), "typesets": 7, "noinsr": True},
         ],
     },
     "C12": {
@@ -157,6 +172,9 @@ PROPS = {
             # updates and insertions through the range / iterator-pair overloads must keep (resp. set) the same order
             {"mode": "model", "kinds": ["fifo"], "profiles": ["ranges", "ranges", "shape", "recycle"], "salt": "r",
              "cases_quick": 4000, "cases_thorough": 200000, "trigger_any": bits("EVICT_AFTER_GAP", "EVICT_VICTIM_UPD"), "typesets": 7},
+            # thorough only: long histories on one instance (every slot recycled hundreds of times)
+            {"mode": "model", "kinds": ["fifo"], "profiles": ["recycle", "churn", "shape"], "salt": "long", "thorough_only": True, "nops": (800, 2500),
+             "cases_quick": 0, "cases_thorough": 1500, "trigger_any": bits("EVICT_AFTER_GAP", "EVICT_VICTIM_UPD"), "typesets": 7, "noinsr": True},
         ],
     },
     "C13": {
@@ -170,6 +188,9 @@ PROPS = {
              "cases_quick": 12000, "cases_thorough": 600000, "trigger_any": bits("EVICT_VICTIM_UPD", "MRU_NEXT"), "typesets": 7},
             {"mode": "model", "kinds": ["mru"], "profiles": ["ranges", "ranges", "shape"], "salt": "r",
              "cases_quick": 4000, "cases_thorough": 200000, "trigger_any": bits("EVICT_VICTIM_UPD", "MRU_NEXT"), "typesets": 7},
+            # thorough only: long histories on one instance (every slot recycled hundreds of times)
+            {"mode": "model", "kinds": ["mru"], "profiles": ["recycle", "churn", "shape"], "salt": "long", "thorough_only": True, "nops": (800, 2500),
+             "cases_quick": 0, "cases_thorough": 1500, "trigger_any": bits("EVICT_VICTIM_UPD", "MRU_NEXT"), "typesets": 7, "noinsr": True},
         ],
     },
     "C14": {
